@@ -3,6 +3,7 @@ RMW (one atomic read-modify-write decides the last reference), LAST-REF (free on
 REF-PAIR (every write of the held pointer is paired with the matching count operation), POOL (reset before recycle, slab lists under the pool mutex,
 slab deletion and manager assignment outside it).  Resolved on forced instantiations (engine/instantiate.cpp)."""
 import re
+from msa import guards as G
 from msa import ip as IP
 from msa import pair as P
 from msa import ast as A
@@ -93,6 +94,13 @@ def run(res, tier):
         sum(1 for x in f.walk() if x.is_call() and 'AtomicCounter' in (x.get('q') or '')) == 1
     res.ob('RMW', f.where(), 'RefCountable::DecrementRefCount returns AtomicDecrement() of its counter, nothing else', ok, function=f.q, key='RMW|%s|forward' % f.q,
            message='RefCountable::DecrementRefCount no longer returns the result of the single atomic decrement')
+    fi = one(fx, 'muscle::RefCountable::IncrementRefCount')
+    calls_i = [x for x in fi.walk() if x.is_call() and 'AtomicCounter' in (x.get('q') or '')]
+    res.ob('RMW', fi.where(), 'RefCountable::IncrementRefCount is one AtomicIncrement() of its counter, nothing else', len(calls_i) == 1 and (calls_i[0].get('q') or '').endswith('AtomicCounter::AtomicIncrement'),
+           function=fi.q, key='RMW|%s|forward' % fi.q, how=', '.join((x.get('q') or '').split('::')[-1] for x in calls_i),
+           message='RefCountable::IncrementRefCount no longer is a single atomic increment (%s): an increment built from a read and a separate compare-and-swap is lost when another thread changes the '
+                   'count in between, while the matching decrement still happens — the count reaches zero while references exist and the object is released early and more than once'
+                   % ', '.join((x.get('q') or '').split('::')[-1] for x in calls_i))
     # ------------------------------------------------------------------------------------------- LAST-REF
     res.rule('LAST-REF', 'ConstRef::UnrefItemAux frees (delete / RecycleObject) only on the true edge of DecrementRefCount(), when counting and when deletion is allowed, and at most once per path', floor=2)
     f = one(fx, CR + '::UnrefItemAux', INST_R)
@@ -240,6 +248,27 @@ def run(res, tier):
     ok = bool(aux) and ('this', '_mutex') in cl.held_at(f, aux[0]) and bool(sm) and all(('this', '_mutex') not in cl.may_held_at(f, c) for c in sm) and P.must_precede(f, aux, sm[0])
     res.ob('POOL', f.where(), 'ObtainObject: ObtainObjectAux under _mutex, then SetManager(this) on the result', ok, function=f.q, key='POOL|%s|obtain' % f.q,
            message='ObtainObject takes a node off the free list without _mutex, or hands out an object whose manager is not this pool (it would be deleted instead of recycled, or recycled into another pool)')
+    # a slab leaves the pool for good (is unlinked without being re-inserted) only when none of its objects is in use
+    n_sf = 0
+    for g in sorted(pfuncs, key=lambda g: g.line):
+        for r_ in g.walk():
+            if not (r_['k'] == 'CXXMemberCallExpr' and (r_.get('q') or '').endswith('::RemoveFromSlabList') and r_.receiver() is not None):
+                continue
+            if g.q.endswith('::RemoveFromSlabList'):
+                continue
+            rk = A.render_key(G.local_init(g, r_.receiver()))
+            rk2 = A.render_key(r_.receiver())
+            same = lambda x: x.receiver() is not None and (A.render_key(x.receiver()) == rk2 or A.render_key(G.local_init(g, x.receiver())) == rk)
+            reins = [c for c in g.walk() if c['k'] == 'CXXMemberCallExpr' and re.search(r'::(AppendToSlabList|PrependToSlabList)$', c.get('q') or '') and same(c)]
+            if reins and P.must_follow(g, r_, reins)[0]:
+                continue          # a move within the list
+            n_sf += 1
+            idle = any(a.is_call() and (a.get('q') or '').endswith('::IsInUse') and same(a) and not t for (a, t) in G.atoms_at(g, r_))
+            res.ob('POOL', g.where(r_), '%s: a slab is taken out of the pool only when IsInUse() is false' % g.q.split('::')[-1], idle, function=g.q, key='POOL|%s|slab-free-idle' % g.q,
+                   message='%s unlinks a slab for deletion without having established that none of its objects is in use (IsInUse() == false): objects that are still referenced are destroyed and '
+                           'their memory freed while Refs to them exist' % g.q)
+    if n_sf < 2:
+        raise AnalysisBroken('POOL: only %d slab-discarding sites found' % n_sf)
     # guarded-by for the slab list heads
     FIELDS = ('_firstSlab', '_lastSlab', '_curPoolSize')
     for g in sorted(pfuncs, key=lambda g: g.line):
